@@ -57,6 +57,8 @@ void simk_end(const char *why, int sig) __attribute__((noreturn));
 void simk_set_schedule(const int *sched, int n);
 void simk_set_sticky(int n);
 void simk_yield(void);
+void simk_flag_wait(int n);
+void simk_flag_set(int n);
 void sync_log(const char *op, int obj);   /* a happens-before edge: lock/unlock/acq/rel/create/... */
 extern int simk_sched_det;            /* deterministic continuation after the schedule prefix */
 extern int simk_quiet_io;             /* writes are not scheduling points */
